@@ -51,10 +51,21 @@ func runC19(c *Ctx) {
 			switch calleeFullName(ci) {
 			case "strings.Join":
 				return constString(ci.Call.Args[1])
-			case "(*strings.Builder).WriteRune":
+			case "(*strings.Builder).WriteRune", "(*strings.Builder).WriteByte":
 				if r, ok := constInt(ci.Call.Args[1]); ok {
 					return string(rune(r)), true
 				}
+			case "(*strings.Builder).WriteString":
+				if sep, ok := constString(ci.Call.Args[1]); ok && len([]rune(sep)) == 1 {
+					return sep, true
+				}
+			}
+		}
+		// ... or a one-character constant operand of a concatenation
+		seps := emittedSeparators(f)
+		if len(seps) == 1 {
+			for r := range seps {
+				return string(r), true
 			}
 		}
 		return "", false
